@@ -8,7 +8,10 @@ point definition of UTF-8, Dec(Enc(x)) = x, CRC(a.b) = update(update(init, a), b
 contract accepts the defined answers and rejects corrupted ones).  Harness bin c14 runs every accelerated
 entry point of zipora (memory::simd_ops, io::simd_memory::{copy,search}, string::{simd_search,bmi2_string_ops,unicode,hex},
 io::simd_validation::{utf8,checksum}, io::simd_encoding::base64, system::base64, entropy::bit_ops,
-hash_map::simd_string_ops, fsa::fast_search) at sampled alignments and at page ends in front of PROT_NONE guard
+hash_map::simd_string_ops, fsa::fast_search; since the coverage round also the ASCII text kernels of bmi2_string_ops (case
+conversion, glob matching, character classes / filters, runs, dictionary scan, substrings, bulk twins, byte hash), the
+string::unicode iterator / analysis / lead-byte table, hex nibble helpers, the bit-field and dispatcher functions of
+entropy::bit_ops, prefetch, the CacheLayoutConfig and FastSearchConfig presets and the global accessors) at sampled alignments and at page ends in front of PROT_NONE guard
 pages, in child processes; Trace_Kernels validates: the oracle is the TLA+ definition evaluated by TLC.
 """
 import glob
@@ -146,6 +149,53 @@ def corrupt_select(run):
     return run
 
 
+def _bump_seq(field="r", idx=-1):
+    """change one element of a sequence-valued result (numbers +1, booleans flipped, nested sequences in their last element)"""
+    def go(v):
+        if isinstance(v, bool):
+            return not v
+        if isinstance(v, int):
+            return v + 1
+        if isinstance(v, list) and v:
+            w = list(v)
+            w[-1] = go(w[-1])
+            return w
+        return None
+    return go
+
+
+def corrupt_kind(op, field="r", pred=lambda e: True):
+    """corruptor for one event kind: the first event of that kind whose result can be changed"""
+    def fn(run):
+        bump = _bump_seq()
+        def ok(e):
+            v = e.get(field)
+            if not pred(e):
+                return False
+            if isinstance(v, list):
+                return len(v) > 0 and bump(v) is not None
+            return isinstance(v, (bool, int))
+        e = _first(run, op, ok)
+        if e is None:
+            return None
+        e[field] = bump(e[field])
+        return run
+    fn.__name__ = "corrupt_" + op + "_" + field
+    return fn
+
+
+def corrupt_refusal(op):
+    """an accepted call turned into a refusal (ok -> false)"""
+    def fn(run):
+        e = _first(run, op, lambda e: e.get("ok") is True)
+        if e is None:
+            return None
+        e["ok"] = False
+        return run
+    fn.__name__ = "corrupt_" + op + "_refused"
+    return fn
+
+
 def _files(s, group=None):
     return sorted(glob.glob(os.path.join(s["_out"], (group or "*") + "-*.ndjson")))
 
@@ -172,6 +222,43 @@ def _cut_subject(ctx, path, subject, name):
     return p
 
 
+def _negative_selftests(ctx, s, neg_tests):
+    evs, whats = [], []
+    for group, subject, fn, what in neg_tests:
+        p = _file_with(_files(s, group), subject)
+        if p is None:
+            raise vlib.ToolError("self-test: no trace of subject %s" % subject)
+        runs = [r for r in vlib.split_runs(vlib.read_ndjson(p)) if r[0].get("subject") == subject]
+        done = False
+        for run in runs:
+            m = fn([dict(e) for e in run])
+            if m is not None:
+                evs.append(m[0])        # the reset event (not judged)
+                evs.append(m[-1])       # the corrupted event (the run was cut behind it)
+                whats.append(what)
+                done = True
+                break
+        if not done:
+            raise vlib.ToolError("self-test: no event suitable for corruption (%s)" % what)
+    path = os.path.join(ctx.work, "selftest-negative.ndjson")
+    vlib.write_ndjson(path, evs)
+    r, out = vlib.tlc("Trace_KernelsNeg", env={"TRACE": path, "KF": "0"}, workers=1, timeout=600, jvm="-Xmx2g")
+    ok = vlib.printed(out, "NEG_OK")
+    bad = vlib.printed(out, "NEG_ACCEPTED")
+    accepted = set()
+    if bad:
+        accepted = {int(x) for x in __import__("re").findall(r"\d+", bad[0])}
+    elif not ok:
+        raise vlib.ToolError("negative self-test gave no verdict:\n" + out[-1500:])
+    for k, what in enumerate(whats):
+        line = 2 * k + 2
+        rejected = line not in accepted
+        ctx.cov["selftests"].append({"what": what, "rejected_as_expected": rejected, "at": line, "via": "Trace_KernelsNeg"})
+        if not rejected:
+            raise vlib.ToolError("binding self-test failed: corrupted event (%s) was accepted" % what)
+    vlib.log("negative self-tests ok: %d corrupted events, all rejected" % len(whats))
+
+
 def run(ctx):
     ctx.build(BIN)
     # --- the definitions: coherence theorems on tiny domains
@@ -186,8 +273,12 @@ def run(ctx):
                note="Dec(Enc(x)) = x, length formulas, padding rules for Base64 (4 configurations) and hex, |x| <= 5")
     ctx.tlc_mc("MC_Kernels", cfg="MC_Kernels_text.cfg", workers=4, timeout=900,
                note="every text of length <= 5 over 8 characters: a valid Base64 / hex text is the encoding of its decoding")
+    ctx.tlc_mc("MC_Kernels", cfg="MC_Kernels_ascii.cfg", workers=4, timeout=900,
+               note="every text of length <= 5 over {* ? A Z a space 0}: case maps idempotent, runs re-assemble the text, keep/remove "
+                    "filters partition it, glob laws (text matches itself, a star anywhere, prefix/suffix stars; a longer text does not "
+                    "match), dictionary scan agrees with FindSub, byte hash composes over a split")
     ctx.tlc_mc("MC_Kernels", cfg="MC_Kernels_bits.cfg", workers=4, timeout=1500,
-               note="81 words (all limb combinations of {0000, 8001, 5A5A}): pdep/pext inverse laws, select = k-th one / refuses k >= popcount, reversal involutive")
+               note="81 words (all limb combinations of {0000, 8001, 5A5A}): pdep/pext inverse laws, select = k-th one / refuses k >= popcount, reversal involutive, bit fields = shifted BZHI, interleave = two deposits, lz(x) = tz(reverse x)")
     if ctx.thorough:
         ctx.tlc_mc("MC_Kernels", cfg="MC_Kernels_hash.cfg", workers=4, timeout=900, note="prefix word = first absorbed word")
     # --- the real kernels
@@ -213,7 +304,48 @@ def run(ctx):
         ("codec", "io64:encode_decode_base64", corrupt_b64_padding, "Base64 text without its padding reported as decoded"),
         ("bits", "bitops@hw", corrupt_select, "select-in-word answer off by one"),
     ]
+    # one corruption per event kind added in the coverage round: judged together in ONE TLC run of
+    # Trace_KernelsNeg (the contract is stateless: every corrupted event must be rejected by EventOK)
+    neg_tests = [
+        ("bmi2text", "bmi2text", corrupt_kind("lower"), "one byte of a lower-cased text changed"),
+        ("bmi2text", "bmi2text", corrupt_kind("upper", pred=lambda e: len(e["s"]) >= 8), "one byte of an upper-cased text changed"),
+        ("bmi2text", "bmi2text", corrupt_kind("runs"), "length of the last run changed"),
+        ("bmi2text", "bmi2text", corrupt_kind("charclass"), "one class membership flipped"),
+        ("bmi2text", "bmi2text", corrupt_kind("filter"), "one byte of a filtered text changed"),
+        ("bmi2text", "bmi2text", corrupt_kind("dict"), "dictionary index of the last match changed"),
+        ("bmi2text", "bmi2text", corrupt_kind("substrings"), "one byte of an extracted substring changed"),
+        ("bmi2text", "bmi2text", corrupt_refusal("substrings"), "substring extraction inside the text reported as refused"),
+        ("bmi2text", "bmi2text", corrupt_kind("wildcard", pred=lambda e: len(e["t"]) < 8), "glob verdict flipped"),
+        ("bmi2text", "bmi2text", corrupt_kind("bytehash", pred=lambda e: 0 < len(e["s"]) < 8), "one limb of a string hash changed"),
+        ("bmi2text", "bmi2text", corrupt_kind("valid_bulk"), "one bulk validity verdict flipped"),
+        ("bmi2text", "bmi2text", corrupt_kind("equal_bulk"), "one bulk equality verdict flipped"),
+        ("bmi2text", "bmi2text", corrupt_kind("bytehash_bulk", pred=lambda e: e["ss"] and all(len(x) < 8 for x in e["ss"])), "one limb of a bulk hash changed"),
+        ("unicode", "unicode:utf8_byte_count", corrupt_kind("lead_len"), "sequence length of lead byte FF changed"),
+        ("unicode", "unicode:Utf8ToUtf32Iterator", corrupt_kind("utf8_iter", "fwd"), "one code point of the forward iteration changed"),
+        ("unicode", "unicode:Utf8ToUtf32Iterator", corrupt_kind("utf8_iter", "bpos"), "one byte position of the backward iteration changed"),
+        ("unicode", "unicode:analyze", corrupt_kind("utf8_analyze", "chars"), "character count changed by +1"),
+        ("unicode", "unicode:analyze", corrupt_kind("utf8_analyze", "control"), "control character count changed by +1"),
+        ("unicode", "unicode:extract_codepoints", corrupt_kind("printable"), "printable verdict flipped"),
+        ("codec", "hex:nibbles", corrupt_kind("hexnibble"), "value of character FF changed"),
+        ("codec", "hex:nibbles", corrupt_kind("hexdigit"), "digit of nibble 15 changed"),
+        ("codec", "hex:nibbles", corrupt_kind("hexbyte"), "one parsed hex byte changed"),
+        ("bits", "bitfields@hw", corrupt_kind("bitfield", pred=lambda e: e.get("ok") is True), "one limb of an extracted bit field changed"),
+        ("bits", "bitfields@hw", corrupt_kind("encfield", pred=lambda e: e.get("ok") is True), "one limb of an encoded field changed"),
+        ("bits", "bitfields@hw", corrupt_kind("interleave"), "one limb of an interleaved word changed"),
+        ("bits", "bitfields@hw", corrupt_kind("pext_list"), "one limb of a parallel extract changed"),
+        ("bits", "bitdispatch@hw", corrupt_kind("wordmap"), "one per-word answer changed"),
+        ("fastsearch", "fastsearch@linear", corrupt_kind("positions"), "last reported position moved"),
+        ("fastsearch", "fastsearch@linear", corrupt_kind("histogram"), "count of byte FF changed"),
+        ("fastsearch", "fastsearch@linear", corrupt_kind("count_byte"), "count changed by +1"),
+        ("fastsearch", "fastsearch@linear", corrupt_kind("find_last"), "last position moved"),
+        ("fastsearch", "fastsearch:utils_popcount", corrupt_kind("popcount_bytes"), "bit count changed by +1"),
+        ("utf8", "std:chars", corrupt_kind("utf8_decode"), "last code point changed"),
+        ("utf8", "std:encode_utf16", corrupt_kind("utf16"), "last UTF-16 unit changed"),
+        ("hash", "hashmap:extract_prefix_simd", corrupt_kind("prefix8"), "one limb of the prefix word changed"),
+    ]
     only = os.environ.get("C14_GROUP")
+    if not only and not os.environ.get("C14_SUBJECTS"):
+        _negative_selftests(ctx, s, neg_tests)
     for group, subject, fn, what in tests:
         if only and only != group:
             continue
@@ -247,7 +379,11 @@ def run(ctx):
         "the 12 UTF-8 class representatives bare and of length <= 3 written at offsets %s of a 70-byte ASCII frame, CRC-32C of every "
         "length 0..130 plus incremental splits, Base64 / hex of lengths 0..36, 47..50, 63..66, 95..97, 127..130 plus damaged texts, "
         "bit words (single bits, runs, random) x masks, UTF-8 decoding / UTF-16 transcoding of random well-formed and damaged text, byte "
-        "search engine strategies (linear / SIMD / SSE4.2 / rank-select / adaptive) incl. a 256-value histogram of one buffer.  Non-trivial = non-empty input.  Every case is executed at %s placements "
+        "search engine strategies (linear / SIMD / SSE4.2 / rank-select / adaptive, presets) incl. a 256-value histogram of one buffer, ASCII "
+        "text over the bytes next to every class boundary (@A Z[ `a z{ /0 9: VT DEL) and text mixed with 2-byte characters for case "
+        "conversion / classes / filters / runs / dictionary scan / substrings, glob patterns derived from the text (prefix, suffix, "
+        "holes, false starts behind a star), bit fields at starts 0..63 x widths 0..33, mask lists of 0, 1 and several masks, buffers "
+        "around the code's thresholds (8, 16, 32, 35/36, 64, 128, 256, 1000, 1024, 4096 bytes; 4 words; 4 strings).  Non-trivial = non-empty input.  Every case is executed at %s placements "
         "(source / destination alignment sampled on {0,1,7,8,15,16,31,32,33,63}, and ending exactly at / starting exactly after a "
         "PROT_NONE guard page); placements with the same answer share one event (np, pl); evaluations counts the calls of the real code, answers_judged the answers TLC recomputed."
         % (("0..130" if ctx.thorough else "{0-3,7-9,15-17,31-33,47-49,63-66,95-97,127-130}"),
